@@ -12,7 +12,7 @@
    (EvSubmit sig now interval), successes (EvSucceed) and housekeeping-forgets
    (EvForget). *)
 From Coq Require Import List Bool ZArith Lia.
-From Cylc Require Import Base.Util Model.Xtrig Proofs.XtrigProofs.
+From Cylc Require Import Base.Util Model.Xtrig Model.XtrigLoop Proofs.XtrigProofs Proofs.XtrigLoopProofs.
 Import ListNotations.
 Open Scope Z_scope.
 
@@ -108,6 +108,78 @@ Theorem c33_needed_survives_housekeeping : forall st tids st' evs s,
   In s (s_sat st) -> In s (needed_sigs tids (s_tasks st)) -> In s (s_sat st').
 Proof. exact xstep_housekeep_keeps. Qed.
 
+(* ---- 5. the caller: the xtrigger section of Scheduler._main_loop (Model/XtrigLoop.v) ---- *)
+(* The theorems above take the task list given to housekeep as it comes; what
+   keeps a success alive for the POOL is the main loop's choice of that list.
+   [LPass now pool pool_hk]: one pass; [pool] = pooled ids with "waiting, not
+   queued, not runahead-limited"; [pool_hk] = ALL pooled ids at housekeeping.
+   [lstep true] = the code as it is (housekeep gets every pooled task). *)
+
+(* A succeeded signature that SOME pooled task — whatever its runahead / queued /
+   held flags or status — still has unsatisfied in its own state survives the
+   pass, and its function is not called during the pass. *)
+Theorem c33_loop_kept_while_needed : forall st now pool pool_hk st' evs res s,
+  lstep true st (LPass now pool pool_hk) = (st', evs, res) ->
+  In s (s_sat (l_x st)) ->
+  (exists t e, In t (s_tasks (l_x st')) /\ In (x_id t) pool_hk /\ In e (x_entries t)
+               /\ e_sat e = false /\ e_sig e = s) ->
+  In s (s_sat (l_x st')) /\ (forall n iv, ~ In (EvSubmit s n iv) evs).
+Proof.
+  intros st now pool pool_hk st' evs res s E Hs Hn.
+  eapply pass_keeps_needed; eauto. now apply needed_sigs_spec.
+Qed.
+
+(* For every step of the loop (task added, callback delivered, pass): a succeeded
+   signature disappears only in a pass in which no pooled task needs it. *)
+Theorem c33_loop_forgets_only_unneeded : forall st o st' evs res s,
+  lstep true st o = (st', evs, res) ->
+  In s (s_sat (l_x st)) -> ~ In s (s_sat (l_x st')) ->
+  exists now pool pool_hk, o = LPass now pool pool_hk /\
+    ~ (exists t e, In t (s_tasks (l_x st')) /\ In (x_id t) pool_hk /\ In e (x_entries t)
+                   /\ e_sat e = false /\ e_sig e = s).
+Proof.
+  intros st o st' evs res s E Hs Hn.
+  destruct (loop_forgets_only_unneeded _ _ _ _ _ s E Hs Hn) as (now & pool & pool_hk & -> & H).
+  exists now, pool, pool_hk. split; [reflexivity|]. intros Hex. apply H. now apply needed_sigs_spec.
+Qed.
+
+(* Why EVERY pooled task must be passed: with only the tasks whose xtriggers were
+   checked in the pass ([lstep false]) the statement is false.  Tasks 1, 2 are
+   checked, task 3 is runahead-limited; all need signature 0, which has succeeded:
+   the pass satisfies 1 and 2, housekeeping forgets 0 although 3 needs it, and when
+   3 is released the function is called again. *)
+Theorem c33_loop_variant_only_checked_tasks_refuted :
+  exists st now pool pool_hk st' evs res s,
+    lstep false st (LPass now pool pool_hk) = (st', evs, res) /\
+    In s (s_sat (l_x st)) /\
+    (exists t e, In t (s_tasks (l_x st')) /\ In (x_id t) pool_hk /\ In e (x_entries t)
+                 /\ e_sat e = false /\ e_sig e = s) /\
+    ~ In s (s_sat (l_x st')) /\
+    In (EvSubmit s 6 10) (snd (lrun false st' [LPass 6 [(3%nat, true)] [3%nat]])).
+Proof.
+  pose (e := {| e_label := 0%nat; e_sig := 0%nat; e_clock := None; e_intvl := 10; e_sat := false |}).
+  pose (ts := [ {| x_id := 1%nat; x_entries := [e] |}; {| x_id := 2%nat; x_entries := [e] |};
+                {| x_id := 3%nat; x_entries := [e] |} ]).
+  exists {| l_x := {| s_tnext := [(0%nat, 10)]; s_sat := [0%nat]; s_active := []; s_tasks := ts |}; l_due := true |},
+         1, [(1%nat, true); (2%nat, true); (3%nat, false)], [1%nat; 2%nat; 3%nat].
+  eexists. eexists. eexists. exists 0%nat.
+  split; [vm_compute; reflexivity|]. split; [now left|]. split.
+  - exists {| x_id := 3%nat; x_entries := [e] |}, e. vm_compute. tauto.
+  - split; [vm_compute; tauto|]. vm_compute. tauto.
+Qed.
+
+(* The trace-level discipline of sections 1-3 also holds for every history of the
+   loop (tasks entering the pool, callbacks, passes with any pool contents). *)
+Theorem c33_loop_discipline : forall ops st evs s,
+  lrun true linit ops = (st, evs) ->
+  NoDup (s_active (l_x st)) /\ intervals_ok s None evs /\ no_resubmit_ok s false evs.
+Proof.
+  intros ops st evs s E. split; [|split].
+  - eapply lrun_active_NoDup; [exact E|]. cbn. constructor.
+  - destruct (lrun_interval s true ops None _ _ _ E) as [H _]; [intros ? [=]|exact H].
+  - destruct (lrun_no_resubmit s true ops false _ _ _ E) as [H _]; [intros [=]|exact H].
+Qed.
+
 (* ---- non-vacuity: two tasks sharing a signature (interval 5) ---- *)
 Example c33_ex_history :
   let e := {| e_label := 0%nat; e_sig := 0%nat; e_clock := None; e_intvl := 5; e_sat := false |} in
@@ -118,4 +190,18 @@ Example c33_ex_history :
   (evs, s_active st, s_sat st, flags (s_tasks st))
   = ([EvSubmit 0%nat 0 5; EvSubmit 0%nat 5 5; EvSucceed 0%nat; EvForget 0%nat], [], [],
      [(0%nat, [(0%nat, true)]); (1%nat, [(0%nat, true)])]).
+Proof. vm_compute. reflexivity. Qed.
+
+(* the seeded scenario (P1 = @poll => foo, runahead P1): 1/foo 2/foo checked, 3/foo runahead-limited;
+   the function succeeds at its first call; 3/foo is satisfied WITHOUT another call *)
+Example c33_ex_loop :
+  let e := {| e_label := 0%nat; e_sig := 0%nat; e_clock := None; e_intvl := 10; e_sat := false |} in
+  let t i := {| x_id := i; x_entries := [e] |} in
+  snd (lrun true linit
+     [LAdd (t 1%nat); LAdd (t 2%nat); LAdd (t 3%nat);
+      LPass 0 [(1%nat, true); (2%nat, true); (3%nat, false)] [1%nat; 2%nat; 3%nat];
+      LCallback 0%nat true;
+      LPass 1 [(1%nat, true); (2%nat, true); (3%nat, false)] [1%nat; 2%nat; 3%nat];
+      LPass 6 [(3%nat, true)] [3%nat]])
+  = [EvSubmit 0%nat 0 10; EvSucceed 0%nat].
 Proof. vm_compute. reflexivity. Qed.
